@@ -7,3 +7,5 @@ pub mod common;
 pub mod stubs;
 #[cfg(kani)]
 mod c07;
+#[cfg(kani)]
+mod c04;
